@@ -58,14 +58,27 @@ RULE = ("histories of 1-40 operations on four Bitset<N> registers; random histor
         "families per capacity: boundaries with all observers and both complement directions, all-words-populated operands "
         "through every operator form, clear/new/clone/clone_from/from_u64 on populated registers followed by all observers and "
         "operators, clone_from into destinations with bits in higher words, pairs of sets differing in exactly one bit placed in "
-        "every word (of interest) in turn and equal sets reached by different histories, out-of-range indices; "
+        "every word (of interest) in turn and equal sets reached by different histories, out-of-range indices, abnormal "
+        "sinks. Calls that hand control to user code are also made with user code that fails, at random places of one random "
+        "history in five (one in ten for N >= 10) and in a directed family for every capacity: fdisp/fdbg render a register "
+        "with Display/Debug into a bounded fmt::Write that refuses the chunk that does not fit, or keeps the part that fits and "
+        "returns fmt::Error, or keeps it and panics (caught), with room for 0, 1, half, len-1 and len bytes, into a sink that "
+        "renders the complement with format! inside write_str, and on a freshly spawned thread (failing sink first, then "
+        "format!); xr does the same with a Bitset<M> of another capacity M in {1,2,3,20,65} (from_u64 pattern or its complement) "
+        "on the same thread. These ops show nothing new (printed as count / clone 0 0 after executor-side checks: accepted "
+        "bytes are a prefix of the rendering given by test(i), Ok only with the whole rendering in the sink, Err only after a "
+        "refusal, panic only from the panicking sink); the renderings of the same, the complementary and empty registers that "
+        "follow them in the history are ordinary disp/dbg observations decided by Coq. iterp runs for_each/fold/position/all "
+        "with a closure that panics at the k-th item (caught) and then lists the iterator as iter does. Every history runs on "
+        "a thread of its own (thread-local leftovers cannot travel between cases, replays are self-contained); "
         "non-trivial = at least one mutation touching a word boundary bit or a binary operator, followed by an observation of "
         "that register")
 TRUSTED = ["executor harness/crates/c12 (drives rlib_bitset::Bitset<N> for N = 0, 1, 2, 3, 4, 8, 10, 16, 17, 20, 32, 33, 64, 65, "
            "128, 129, 157, 1024, 1025, prints every observable; its internal cross-checks of alternative public routes "
-           "(iterx/itern/dispn/dbgn/eq/disp/dbg) can only turn an observation into a token that fails both checks)",
-           "checks/c12.py (history generator, Coq term printer; iterx/iterraw are printed as OIter, itern/dispn/dbgn as OCount, "
-           "clonefrom as OClone; a plain-integer simulation of the registers is used only to choose between an observer and "
+           "(iterx/itern/dispn/dbgn/eq/disp/dbg/fdisp/fdbg/xr/iterp) can only turn an observation into a token that fails both "
+           "checks)",
+           "checks/c12.py (history generator, Coq term printer; iterx/iterraw/iterp are printed as OIter, itern/dispn/dbgn/fdisp/fdbg "
+           "as OCount, clonefrom as OClone, xr as OClone 0 0; a plain-integer simulation of the registers is used only to choose between an observer and "
            "its counting form)"]
 ASSUMPTIONS = ["[u64; N] modelled as a list of N words below 2^64, usize indices as unbounded N (all sampled indices are "
                "below 2^64; idx + 64 in the iterator cannot overflow since idx < 64*N)",
@@ -78,7 +91,10 @@ NS_BIG = [128, 129, 157, 1024, 1025]            # directed histories only
 NS_ALL = sorted(NS + NS_MID + NS_BIG)
 ARITY = {"new": 1, "from": 2, "set": 2, "rem": 2, "flip": 2, "test": 2, "clear": 1, "count": 1, "iter": 1,
          "and": 3, "or": 3, "xor": 3, "anda": 2, "ora": 2, "xora": 2, "not": 2, "eq": 2, "clone": 2, "disp": 1, "dbg": 1,
-         "iterx": 3, "iterraw": 1, "itern": 3, "dispn": 1, "dbgn": 1, "clonefrom": 2}
+         "iterx": 3, "iterraw": 1, "itern": 3, "dispn": 1, "dbgn": 1, "clonefrom": 2,
+         "fdisp": 3, "fdbg": 3, "xr": 6, "iterp": 2}
+XCAPS = [1, 2, 3, 20, 65]                       # capacities of the foreign bitsets rendered inside a history (op xr)
+ABNORMAL = ("fdisp", "fdbg", "xr")
 M64 = (1 << 64) - 1
 
 
@@ -107,10 +123,16 @@ def op_term(o):
         return "%s %d" % ({"clear": "OClear", "count": "OCount", "iter": "OIter", "disp": "ODisplay", "dbg": "ODebug"}[k], a[0])
     # executor ops that reach an existing observation by another public route (see the executor's header): the model
     # and the specification know them only as the plain operation, so any difference is a failed check
-    if k in ("iterx", "iterraw"):
+    if k in ("iterx", "iterraw", "iterp"):
         return "OIter %d" % a[0]
-    if k in ("itern", "dispn", "dbgn"):
+    if k in ("itern", "dispn", "dbgn", "fdisp", "fdbg"):
+        # fdisp / fdbg: a rendering into a failing / panicking / re-entrant sink changes nothing and shows nothing
+        # (the executor prints count() after its own checks); its purpose is what LATER disp / dbg ops show
         return "OCount %d" % a[0]
+    if k == "xr":
+        # rendering of a bitset of another capacity: no register is involved.  `clone 0 0` is the operation that
+        # leaves every register as it is and shows `u`
+        return "OClone 0 0"
     if k == "clonefrom":
         return "OClone %d %d" % (a[0], a[1])
     if k in ("and", "or", "xor"):
@@ -164,7 +186,7 @@ def coq_term(c, obs, profile):
 
 
 MUT = ("set", "rem", "flip", "and", "or", "xor", "anda", "ora", "xora", "not", "from")
-OBS = ("test", "count", "iter", "eq", "disp", "dbg", "iterx", "iterraw", "itern", "dispn", "dbgn")
+OBS = ("test", "count", "iter", "eq", "disp", "dbg", "iterx", "iterraw", "itern", "dispn", "dbgn", "iterp", "fdisp", "fdbg")
 
 
 def nontrivial(c, obs):
@@ -181,8 +203,10 @@ def classify(c, obs):
     kinds = {o[0] for o in c["ops"]}
     tag = "N%d" % c["n"]
     tag += "/bin" if kinds & {"and", "or", "xor", "anda", "ora", "xora", "not"} else "/point"
-    if kinds & {"iterx", "iterraw", "itern", "dispn", "dbgn", "clonefrom"}:
+    if kinds & {"iterx", "iterraw", "itern", "dispn", "dbgn", "clonefrom", "iterp"}:
         tag += "/alt-route"
+    if kinds & set(ABNORMAL):
+        tag += "/abnormal-sink"
     if "P" in obs.split():
         tag += "/panic"
     return tag
@@ -309,6 +333,11 @@ def concretize(n, ops, bud):
                 out.append(["iterraw", o[1]])
             else:
                 out.append(["itern", o[1], 0, 0])
+        elif k == "ITERP":              # ["ITERP", r, k]
+            if bud.take(cost_iter(n, regs[o[1]])):
+                out.append(["iterp", o[1], o[2]])
+            else:
+                out.append(["itern", o[1], o[2], 0])
         elif k in ("DISP", "DBG"):
             if bud.take(cost_disp(n)):
                 out.append(["disp" if k == "DISP" else "dbg", o[1]])
@@ -380,7 +409,44 @@ def gen_history_abs(rng, n, maxlen):
     touched = sorted({o[1] for o in ops if o[0] not in OBS and o[0] not in ("ITER", "RAW", "DISP", "DBG")})
     for r in touched:
         ops.append(alt_iter(rng, r, n) if rng.chance(2, 3) else ["count", r])
+    if rng.chance(1, 5 if n < 10 else 10):      # renderings cost n^2 in the Coq replay
+        inject_abnormal(rng, n, ops)
     return ops
+
+
+def abnormal_op(rng, n, r):
+    """one rendering into a sink that is not a String (executor header: fdisp / fdbg / xr)"""
+    mode = rng.choice([0, 0, 0, 1, 1, 2, 2, 2, 3, 4])
+    ksel = rng.choice([0, 1, 2, 2, 3, 3, 4])
+    if rng.chance(1, 4):                # a bitset of another capacity on the same thread
+        pat = pattern(rng) if rng.chance(3, 4) else M64
+        return ["xr", rng.choice(XCAPS), rng.below(2), pat, rng.below(2), rng.choice([0, 1, 2, 3, 5, mode]), ksel]
+    return ["fdisp" if rng.chance(1, 2) else "fdbg", r, mode, ksel]
+
+
+def render_op(rng, n, r):
+    k = "disp" if rng.chance(1, 2) else "dbg"
+    return [k.upper(), r] if n > 20 else [k, r]
+
+
+def inject_abnormal(rng, n, ops):
+    """a rendering whose sink fails, at a random place of the history; after it (not necessarily at once) the same and
+    another register are rendered normally: those are ordinary disp / dbg observations"""
+    pos = rng.below(len(ops) + 1)
+    r = rng.below(4)
+    blk = [abnormal_op(rng, n, r)]
+    if rng.chance(1, 3):
+        blk.append(abnormal_op(rng, n, rng.below(4)))
+    ops[pos:pos] = blk
+    pos += len(blk)
+    later = [render_op(rng, n, (r + 1 + rng.below(3)) % 4)]
+    if n < 10 or rng.chance(1, 3):
+        later.append(render_op(rng, n, r))
+    if n < 10 and rng.chance(1, 2):
+        later.append(render_op(rng, n, rng.below(4)))
+    for o in later:
+        at = pos if rng.chance(1, 3) else pos + rng.below(len(ops) - pos + 1)
+        ops.insert(at, o)
 
 
 def alt_iter(rng, r, n):
@@ -389,7 +455,7 @@ def alt_iter(rng, r, n):
     if n > 20:
         return ["RAW", r] if k == 0 else ["ITER", r, rng.choice([0, 1, 2, 3, 5, 8, 13, 63, 64, 65, 100]), rng.below(4)]
     if k < 4:
-        return ["iter", r]
+        return ["iterp", r, rng.choice([0, 0, 1, 2, 5, 63, 64, 64 * n])] if rng.chance(1, 6) else ["iter", r]
     if k < 7:
         return ["iterx", r, rng.choice([0, 1, 2, 3, 5, 8, 13, 63, 64, 65, 100, 64 * n]), rng.choice([0, 1, 2, 3, 7, 64])]
     return ["iterraw", r]
@@ -576,13 +642,55 @@ def fam_oor(n, v):
     return [h, h2]
 
 
+def fam_sink(n, v):
+    """G9: renderings whose sink reports an error after k bytes (k = 0, 1, half, len-1; len = no failure), panics, renders
+    another bitset from inside write_str, or lives on another thread - of a register of this capacity and of bitsets of
+    other capacities on the same thread - each followed by ordinary renderings of an empty register, of the same
+    register and of its complement"""
+    top = 64 * n
+    e = sorted({x for x in (0, 3, 63, 64, 70, top - 64, top - 1, wbit(woi(n)[len(woi(n)) // 2], v, 5) if n else 0)
+                if 0 <= x < top})
+    pre = [["set", 0, x] for x in e] + [["not", 1, 0]]
+    combos = [(m, k) for k in (2, 0, 3, 1, 4) for m in (0, 1, 2)]
+    rot = (5 * v + 2 * NS_ALL.index(n)) % len(combos)
+    combos = combos[rot:] + combos[:rot]
+    hs = []
+    # (a) error-returning and panicking sinks on the registers of this capacity
+    h = list(pre)
+    for i, (m, k) in enumerate(combos[:6]):
+        r = i % 2
+        h += [["fdisp" if (i + v) % 2 == 0 else "fdbg", r, m, k], ["DISP" if i % 2 else "DBG", 2 + i % 2],
+              ["DBG" if (i + v) % 2 == 0 else "DISP", r]]
+    h += [["count", 0], ["ITERP", 0, 1], ["eq", 2, 3]]
+    hs.append(h)
+    # (b) bitsets of other capacities (sparse and dense) failing on the same thread, then this capacity
+    h = [["xr", XCAPS[(v + NS_ALL.index(n)) % 5], 1, 0x5555555555555555, v % 2, combos[0][0], 2], ["DISP", 0]]
+    h += pre
+    for i, (m, k) in enumerate(combos[6:11]):
+        M = XCAPS[(i + v) % 5]
+        h += [["xr", M, i % 2, [M64, 1 << 63 | 9, 0xAAAAAAAAAAAAAAAA][i % 3], (i + v) % 2, m, k],
+              ["DISP" if i % 2 else "DBG", 2], ["DBG" if i % 2 else "DISP", i % 2]]
+    h += [["xr", XCAPS[v % 5], 1, 6, 0, 5, 0], ["xr", XCAPS[(v + 3) % 5], 0, M64, 1, 5, 0], ["DISP", 3], ["count", 1]]
+    hs.append(h)
+    # (c) re-entrant sink, other thread, consumers that panic; then a failing sink again and every register
+    h = list(pre) + [["fdisp", 0, 3, 0], ["DISP", 2], ["fdbg", 1, 3, 0], ["DBG", 0], ["fdbg", 0, 4, 2], ["fdisp", 1, 4, 0],
+                     ["DISP", 3], ["xr", XCAPS[(v + 1) % 5], 1, 1, 0, 3, 0], ["xr", XCAPS[(v + 2) % 5], 0, M64, 1, 4, 3],
+                     ["ITERP", 0, 0], ["ITERP", 0, len(e)], ["ITERP", 2, 0], ["ITERP", 0, max(len(e) - 1, 0)],
+                     ["fdisp", 1, combos[11][0], combos[11][1]], ["fdbg", 0, combos[12][0], combos[12][1]],
+                     ["clear", 1], ["DBG", 1], ["DISP", 2], ["DISP", 0], ["eq", 1, 2], ["count", 0]]
+    hs.append(h)
+    return hs
+
+
 ZERO = [["count", 0], ["iter", 0], ["iterx", 0, 0, 0], ["iterx", 0, 1, 1], ["iterraw", 0], ["disp", 0], ["dbg", 0], ["dispn", 0],
         ["itern", 0, 0, 0], ["eq", 0, 1], ["and", 2, 0, 1], ["or", 2, 0, 1], ["xor", 2, 0, 1], ["anda", 0, 1], ["ora", 0, 1],
         ["xora", 0, 1], ["not", 1, 0], ["eq", 1, 0], ["clear", 0], ["clone", 1, 0], ["clonefrom", 2, 1], ["new", 0], ["new", 1],
         ["from", 0, 5], ["from", 1, 0], ["set", 0, 0], ["rem", 0, 0], ["flip", 0, 0], ["test", 0, 0], ["set", 0, 63],
-        ["test", 0, 1 << 63], ["flip", 1, M64], ["count", 0], ["iter", 1], ["disp", 1], ["dbg", 2], ["eq", 0, 1], ["count", 3]]
+        ["test", 0, 1 << 63], ["flip", 1, M64], ["count", 0], ["iter", 1], ["disp", 1], ["dbg", 2], ["eq", 0, 1], ["count", 3],
+        ["fdisp", 0, 0, 0], ["fdbg", 1, 2, 3], ["fdisp", 2, 1, 1], ["fdbg", 0, 3, 0], ["fdisp", 1, 4, 2], ["iterp", 0, 0],
+        ["xr", 2, 1, 5, 0, 2, 3], ["disp", 0], ["dbg", 3]]
 
-FAMILIES = [fam_edges, fam_iterx, fam_clonefrom, fam_neareq, fam_struct, fam_oor]
+FAMILIES = [fam_edges, fam_iterx, fam_clonefrom, fam_neareq, fam_struct, fam_oor, fam_sink]
 
 
 def budget_for(n, tier):
@@ -669,7 +777,8 @@ def shrink(c):
                 if o[0] != "from" and (v >= 64 * c["n"]) != (o[2] >= 64 * c["n"]):
                     continue
                 out.append(dict(c, ops=ops[:i] + [[o[0], o[1], v]] + ops[i + 1:]))
-    alt = {"iterx": "iter", "iterraw": "iter", "itern": "count", "dispn": "count", "dbgn": "count", "clonefrom": "clone"}
+    alt = {"iterx": "iter", "iterraw": "iter", "itern": "count", "dispn": "count", "dbgn": "count", "clonefrom": "clone",
+           "iterp": "iter", "fdisp": "count", "fdbg": "count"}
     for i, o in enumerate(ops):
         if o[0] in alt:
             out.append(dict(c, ops=ops[:i] + [[alt[o[0]]] + o[1:ARITY[alt[o[0]]] + 1]] + ops[i + 1:]))
@@ -694,7 +803,10 @@ MANIFEST = {
             "(debug and release) and Coq proves model = implementation and implementation = naive set on every case; the "
             "executor additionally reaches each observation by the other public routes (every provided Iterator method "
             "after partial consumption, BitsIter::new, clone_from, !=, to_string and formatter flags) and any disagreement "
-            "fails the case.",
+            "fails the case. Histories also contain renderings whose sink reports an error after k bytes, panics, re-enters "
+            "the formatter or lives on another thread (registers of the capacity under test and bitsets of other capacities "
+            "on the same thread) and iterator consumers whose closure panics; the renderings that follow them are ordinary "
+            "observations checked against the model and the naive set.",
     "level_note": "Trusted: Coq kernel + vm_compute; the Rust executor and the Python case printer (its two compact notations "
                   "for observed strings/lists are proved to denote the rendering/member list: c12_enc_*); arrays are lists, "
                   "usize is unbounded N with 64*N < 2^64 assumed for the iterator; theorems are about the model, the "
